@@ -227,16 +227,22 @@ func runC10(k *kernel.K) {
 	}
 	bounded := "at network quiescence"
 	if d, _ := hw.done(); !d {
-		// The property allows a bounded time: give it a simulated minute.
-		if mb := k.MutexBlocked(); len(mb) > 0 {
-			var locks []string
-			for _, g := range mb {
-				locks = append(locks, g.TopWith("martian/v3/h2")+" ["+g.State+"]")
+		// The property allows a bounded time: give it a simulated minute. (Mutex waits do not stop
+		// the bubble clock, seam R0e: a goroutine that holds a lock across a wait with a deadline
+		// - the lingering close after a drain - is not a deadlock.)
+		k.FastAdvance = true
+		k.Advance(60 * time.Second)
+		k.FastAdvance = false
+		k.Drain()
+		bounded = "within 60 s of simulated time"
+		if d, _ := hw.done(); !d {
+			if mb := k.MutexBlocked(); len(mb) > 0 {
+				var locks []string
+				for _, g := range mb {
+					locks = append(locks, g.TopWith("martian/v3/h2")+" ["+g.State+"]")
+				}
+				k.Fail("C10.mutex_deadlock", map[string]string{"event": event, "state": state}, "after %s in state %s and 60 s of simulated time Config.Proxy has not returned and goroutines wait on mutexes: %v; h2 goroutines: %s", event, state, locks, kernel.FormatSummary(kernel.CensusSummary(k.Census(), "martian/v3/h2.")))
 			}
-			k.Fail("C10.mutex_deadlock", map[string]string{"event": event, "state": state}, "after %s in state %s Config.Proxy has not returned and goroutines wait on mutexes held by goroutines that are blocked for good: %v; h2 goroutines: %s", event, state, locks, kernel.FormatSummary(kernel.CensusSummary(k.Census(), "martian/v3/h2.")))
-		} else if k.Advance(60 * time.Second) {
-			k.Drain()
-			bounded = "within 60 s of simulated time"
 		}
 	}
 	done, _ := hw.done()
